@@ -173,10 +173,10 @@ def generate_rpc(fcp: FcpV2) -> FcpV2:
     for service in fcp.services:
         service_methods_enum[service.name] = []
         for method in service.methods:
-            method_data[method.input] = _rpc_input_data(
+            method_data[method.input + "Input"] = _rpc_input_data(
                 service, fcp.get_struct(method.input).unwrap()
             )
-            method_data[method.output] = _rpc_output_data(
+            method_data[method.output + "Output"] = _rpc_output_data(
                 service, fcp.get_struct(method.output).unwrap()
             )
             service_methods_enum[service.name].append((method.name, method.id))
